@@ -83,7 +83,9 @@ func spellings(key []byte) []string {
 		}
 	}
 	// (the first four keep their positions: several checks pick spellings by index)
-	return []string{u, p, l, " \t" + string(mixed) + "\n", strings.ToLower(p) + " \t\n", "\n" + p + "\n"}
+	return []string{u, p, l, " \t" + string(mixed) + "\n", strings.ToLower(p) + " \t\n", "\n" + p + "\n",
+		// blanks of different kinds in both orders at one end
+		u + "\n \t", " \n\t \n" + l}
 }
 
 var counterAlphabet = func() []uint64 {
